@@ -11,6 +11,18 @@ CHECKS = {
         "note": "Exact linear solve (C04), reals, interp1d/min/max models, arg-max existence and induction on the step index are trusted schemas; time grid non-decreasing and p_f <= p_i inside the table are preconditions.",
         "technique": "VC generation from the AST with loop recurrence summarisation; induction with explicit instantiation, SMT (z3 NRA); bounded run-time contracts for time-monotonicity",
     },
+    "C02": {
+        "category": "other",
+        "text": "Proved: the scheme is the backward-Euler finite-difference discretisation of the documented boundary-value problem - interior row exact on quadratics with k = dt a/h^2, mirror-ghost closure at the outer boundary, ghost-value closure at the fracture face (row 0 of the extracted step), one mesh constant equal to the documented 1/h^2 with domain length within 2/(nx-1) of 1, uniform initial state - plus the step contract (C04), 'field is a function of the arguments only' (C10), recovery = flux stencil + trapezoid and the FVF scale as re-verified dependencies (20 obligations). Stability is C01. Convergence and its rate are limit statements: BOUNDED ladders against the closed-form Fourier series and an independent method-of-lines reference. Level 'other'.",
+        "note": "Lax equivalence (consistency + stability => convergence) is textbook and not formalised; contracts of _build_matrix/_solve re-verified.",
+        "technique": "VC generation from the AST (callee contracts + loop recurrence); SMT consistency lemmas; bounded convergence ladders",
+    },
+    "C03": {
+        "category": "other",
+        "text": "Proved: both recoveries are 0 at the first time, the in-place recovery never exceeds 1 - rho(L)/rho(m_i) (C01 lower/upper bounds + monotone density map + monotone finite sums), the scaling factor is the interpolant of c mu z/(2p) at p_i, FVF scales, flux stencil / trapezoid over stored times / frames as dependencies (10 obligations). Agreement of flux-based and in-place recovery within first-order error shrinking under refinement, monotone recovery and the ideal plateau are a-priori error statements: BOUNDED run-time contracts on exactly consistent synthetic tables and the shipped tables. Level 'other'.",
+        "note": "Sum monotonicity and monotone piecewise-linear interpolation are trusted schemas; 'consistent table' enters as density positive and non-decreasing in scaled pseudopressure.",
+        "technique": "VC generation from the AST; SMT/CAS lemmas over the recovery terms; bounded run-time contracts for the error statements",
+    },
     "C04": {
         "category": "proof",
         "text": "_build_matrix is proved against its contract (three diagonals of the right lengths, entries 1+2k / 1+k / -k[r+1] / -k[r], M-matrix corollaries), _solve against 'returns x with A x = b on every path', and the loop body of both simulate() methods against the step contract: stored row = _solve(_build_matrix(kt_h2), b) for every i, kt_h2 = (t[i+1]-t[i]) C(nx) alpha_s(previous level) with one positive mesh constant, interior and no-flow rows of the documented scheme. 10 obligations; residuals on real runs are a BOUNDED clause.",
@@ -95,11 +107,23 @@ CHECKS = {
         "note": "interp1d model ('extrapolate' = linear continuation); sympy normal forms; docs typo S_g/b_o read as S_g/B_g.",
         "technique": "VC generation from the AST; CAS identities (sympy) with uninterpreted functions",
     },
+    "C18": {
+        "category": "proof",
+        "text": "_obj_function and fit_production_pressure are executed symbolically with FlowProperties(...), simulate() and recovery_factor() replaced by their contracts: the objective is M * RF(SinglePhaseReservoir(N, p_i, p_i, FlowProperties(table, p_i)).simulate(days/tau, p_f)) - production and depends on its arguments only; the row filter keeps exactly Gas > 0 and non-missing Pressure; the minimiser receives (arange(n), cumsum(Gas), table, pressures smoothed with the requested window; window 1 or none = unchanged); declared limits tau in [30, 2(n-1)], M in [cum[n-2], inplace_max], p_initial in [max p_f, pressure_imax] with fitted values inside. 7 obligations. Real pandas frames and real fits: BOUNDED clause.",
+        "note": "Assumed contracts of lmfit (values within [min, max]; fcn(params, *fcn_args)), pandas row filter, uniform_filter1d(size=1) identity; method contracts from C09/C10.",
+        "technique": "VC generation from the AST with callee contracts; structural + SMT/CAS obligations; bounded run-time contracts on real data frames",
+    },
     "C19": {
         "category": "proof",
         "text": "Each Fluid method is executed on a pressure array of symbolic length and its element at a symbolic index is proved equal (CAS, case split at the bubble point) to the stand-alone correlation's own extracted term with the instance attributes in the right positions; build_pvt_gas's grid (10 + 10 j < max, none missing) is an SMT obligation from the arange model and each column is the stand-alone correlation at the Sutton point; Sutton clauses are CAS identities plus a path enumeration over a symbolic fluid-type string. 12 obligations.",
         "note": "np.arange / comprehension-as-map / np.vectorize / pandas models assumed; z_factor_DAK opaque (C06).",
         "technique": "VC generation from the AST over symbolic-length arrays; CAS term equality, SMT for the grid and rejection paths",
+    },
+    "C20": {
+        "category": "proof",
+        "text": "The plotting helpers are executed symbolically against a model of Axes.plot that records (x, y) and the condition under which each curve is drawn, the loop over profiles at a symbolic index: a profile is drawn iff i % every == 0 with x_j = (j+1)/nx and the (rescaled) profile; one curve (time, recovery_factor()); one curve (time, gradient(recovery_factor(), time)); the comparison figure's three curves with the recovery taken from the forward model driven by the same (smoothed) pressures that are drawn; sqrt transform == sqrt, exact mutual inverses on a >= 0, inverted() classes. 7 obligations. Real matplotlib Axes: BOUNDED clause.",
+        "note": "matplotlib Axes.plot model; np.gradient model; method contracts from C10.",
+        "technique": "VC generation from the AST with an effect log for drawn curves; SMT/CAS obligations; bounded run-time contracts on real Axes",
     },
 }
 
